@@ -99,12 +99,14 @@ def read_expr(src, skip_envs=(), tolerance=0, mode=MODE_NON_MATH):
     c = next(src)
     if c.category in MATH_TOKEN_TO_ENV.keys():
         expr = MATH_TOKEN_TO_ENV[c.category]([], position=c.position)
-        return read_math_env(src, expr, tolerance=tolerance)
+        return read_math_env(src, expr, tolerance=tolerance,
+                             skip_envs=skip_envs)
     elif c.category == TC.Escape:
-        name, args = read_command(src, tolerance=tolerance, mode=mode)
+        name, args = read_command(src, tolerance=tolerance, mode=mode,
+                                  skip_envs=skip_envs)
         if name == 'item':
             assert mode != MODE_MATH, r'Command \item invalid in math mode.'
-            contents = read_item(src)
+            contents = read_item(src, skip_envs=skip_envs)
             expr = TexCmd(name, contents, args, position=c.position)
         # if we are in "special" mode, we do not attempt to match the `\begin`
         # and `\end`
@@ -123,7 +125,7 @@ def read_expr(src, skip_envs=(), tolerance=0, mode=MODE_NON_MATH):
             expr = TexCmd(name, args=args, position=c.position)
         return expr
     if c.category == TC.GroupBegin:
-        return read_arg(src, c, tolerance=tolerance)
+        return read_arg(src, c, tolerance=tolerance, skip_envs=skip_envs)
 
     assert isinstance(c, Token)
     return TexText(c)
@@ -134,7 +136,7 @@ def read_expr(src, skip_envs=(), tolerance=0, mode=MODE_NON_MATH):
 ################
 
 
-def read_item(src, tolerance=0):
+def read_item(src, tolerance=0, skip_envs=()):
     r"""Read the item content. Assumes escape has just been parsed.
 
     There can be any number of whitespace characters between \item and the
@@ -177,7 +179,7 @@ def read_item(src, tolerance=0):
                 return extras
         elif src.peek().category == TC.GroupEnd:
             break
-        extras.append(read_expr(src, tolerance=tolerance))
+        extras.append(read_expr(src, skip_envs=skip_envs, tolerance=tolerance))
     return extras
 
 
@@ -199,7 +201,7 @@ def unclosed_env_handler(src, expr, end):
         line, offset, expr.name, expr.end, explanation))
 
 
-def read_math_env(src, expr, tolerance=0):
+def read_math_env(src, expr, tolerance=0, skip_envs=()):
     r"""Read the environment from buffer.
 
     Advances the buffer until right after the end of the environment. Adds
@@ -219,7 +221,8 @@ def read_math_env(src, expr, tolerance=0):
     """
     contents = []
     while src.hasNext() and src.peek().category != expr.token_end:
-        contents.append(read_expr(src, tolerance=tolerance, mode=MODE_MATH))
+        contents.append(read_expr(src, skip_envs=skip_envs,
+                                  tolerance=tolerance, mode=MODE_MATH))
     if not src.hasNext() or src.peek().category != expr.token_end:
         unclosed_env_handler(src, expr, src.peek())
     next(src)
@@ -330,7 +333,7 @@ def read_env_end(src, tolerance=0, mode=MODE_NON_MATH):
 # TODO: handle macro-weirdness e.g., \def\blah[#1][[[[[[[[#2{"#1 . #2"}
 # TODO: add newcommand macro
 def read_args(src, n_required=-1, n_optional=-1, args=None, tolerance=0,
-        mode=MODE_NON_MATH):
+        mode=MODE_NON_MATH, skip_envs=()):
     r"""Read all arguments from buffer.
 
     This function assumes that the command name has already been parsed. By
@@ -372,18 +375,23 @@ def read_args(src, n_required=-1, n_optional=-1, args=None, tolerance=0,
     if n_required == 0 and n_optional == 0:
         return args
 
-    n_optional = read_arg_optional(src, args, n_optional, tolerance, mode)
-    n_required = read_arg_required(src, args, n_required, tolerance, mode)
+    n_optional = read_arg_optional(
+        src, args, n_optional, tolerance, mode, skip_envs)
+    n_required = read_arg_required(
+        src, args, n_required, tolerance, mode, skip_envs)
 
     if src.hasNext() and src.peek().category == TC.BracketBegin:
-        n_optional = read_arg_optional(src, args, n_optional, tolerance, mode)
+        n_optional = read_arg_optional(
+            src, args, n_optional, tolerance, mode, skip_envs)
     if src.hasNext() and src.peek().category == TC.GroupBegin:
-        n_required = read_arg_required(src, args, n_required, tolerance, mode)
+        n_required = read_arg_required(
+            src, args, n_required, tolerance, mode, skip_envs)
     return args
 
 
 def read_arg_optional(
-        src, args, n_optional=-1, tolerance=0, mode=MODE_NON_MATH):
+        src, args, n_optional=-1, tolerance=0, mode=MODE_NON_MATH,
+        skip_envs=()):
     """Read next optional argument from buffer.
 
     If the command has remaining optional arguments, look for:
@@ -407,13 +415,15 @@ def read_arg_optional(
             if spacer:
                 src.backward(1)
             break
-        args.append(read_arg(src, next(src), tolerance=tolerance, mode=mode))
+        args.append(read_arg(src, next(src), tolerance=tolerance, mode=mode,
+                             skip_envs=skip_envs))
         n_optional -= 1
     return n_optional
 
 
 def read_arg_required(
-        src, args, n_required=-1, tolerance=0, mode=MODE_NON_MATH):
+        src, args, n_required=-1, tolerance=0, mode=MODE_NON_MATH,
+        skip_envs=()):
     r"""Read next required argument from buffer.
 
     If the command has remaining required arguments, look for:
@@ -449,7 +459,8 @@ def read_arg_required(
 
         if src.hasNext() and src.peek().category == TC.GroupBegin:
             args.append(read_arg(
-                src, next(src), tolerance=tolerance, mode=mode))
+                src, next(src), tolerance=tolerance, mode=mode,
+                skip_envs=skip_envs))
             n_required -= 1
             continue
         elif src.hasNext() and n_required > 0:
@@ -468,7 +479,7 @@ def read_arg_required(
     return n_required
 
 
-def read_arg(src, c, tolerance=0, mode=MODE_NON_MATH):
+def read_arg(src, c, tolerance=0, mode=MODE_NON_MATH, skip_envs=()):
     r"""Read the argument from buffer.
 
     Advances buffer until right before the end of the argument.
@@ -497,7 +508,8 @@ def read_arg(src, c, tolerance=0, mode=MODE_NON_MATH):
             src.forward()
             return arg(*content[1:], position=c.position)
         else:
-            content.append(read_expr(src, tolerance=tolerance, mode=mode))
+            content.append(read_expr(src, skip_envs=skip_envs,
+                                     tolerance=tolerance, mode=mode))
 
     if tolerance == 0:
         clo = CharToLineOffset(str(src))
@@ -536,7 +548,7 @@ def read_spacer(buf):
 
 
 def read_command(buf, n_required_args=-1, n_optional_args=-1, skip=0,
-                 tolerance=0, mode=MODE_NON_MATH):
+                 tolerance=0, mode=MODE_NON_MATH, skip_envs=()):
     r"""Parses command and all arguments. Assumes escape has just been parsed.
 
     No whitespace is allowed between escape and command name. e.g.,
@@ -585,7 +597,7 @@ def read_command(buf, n_required_args=-1, n_optional_args=-1, skip=0,
     if n_required_args < 0 and n_optional_args < 0:
         n_required_args, n_optional_args = SIGNATURES.get(name, (-1, -1))
     args = read_args(buf, n_required_args, n_optional_args,
-                     tolerance=tolerance, mode=mode)
+                     tolerance=tolerance, mode=mode, skip_envs=skip_envs)
     # after parsing the command, go back to normal mode
     if name.text in SPECIAL_COMMANDS:
         mode = MODE_NON_MATH
